@@ -518,6 +518,10 @@ def drive(prop, tier, seed, replay=None):
         print(f"NOTE: property={prop} {n}")
     for k, v in sorted(kf.items()):
         print(f"KNOWN-FINDING: property={prop} {k}: {v['entry'].get('what','')} (seen {v['count']}x this run)")
+    if os.environ.get("PVMON_DEBUG"):
+        os.makedirs(REPLAY_DIR, exist_ok=True)
+        with open(os.path.join(REPLAY_DIR, f"{prop}-all.json"), "w") as f:
+            json.dump({"violations": merged["violations"], "known": {k: v["count"] for k, v in kf.items()}}, f, indent=1)
     if verdict == "violated":
         for r in reasons:
             print(f"INCONCLUSIVE-PART property={prop} reason={r[:1500]}")
